@@ -111,6 +111,16 @@ func c12Scenarios(tier string, withClose bool) []*h.Scenario {
 		}
 		add("overflow-vs-patch-without-grace", &h.Scenario{Conf: noGrace(2), Prefix: openPrefix(2), Threads: [][]h.Step{{post}, {patch("s1")}}})
 		add("overflow-vs-put-without-grace", &h.Scenario{Conf: noGrace(2), Prefix: openPrefix(2), Threads: [][]h.Step{{post}, {put("s1")}}})
+		// neither an age nor a count limit on the session cache (grace period and RepoUploadMax disabled) while collection
+		// runs: a pass asks the unlimited cache whether sessions are open while a request ends one
+		noLimits := &h.Conf{Name: store, Store: store, Mod: func(c *config.Config) {
+			c.Storage.GC.Frequency = 15 * time.Minute
+			c.Storage.GC.GracePeriod = -1
+			c.Storage.GC.RepoUploadMax = -1
+		}}
+		add("tick-vs-delete-session-without-limits", &h.Scenario{Conf: noLimits, Prefix: openPrefix(1), PendingTick: true, Threads: [][]h.Step{{del("s1")}}})
+		add("tick-vs-put-session-without-limits", &h.Scenario{Conf: noLimits, Prefix: openPrefix(1), PendingTick: true, Threads: [][]h.Step{{put("s1")}}})
+		add("tick-vs-open-session-without-limits", &h.Scenario{Conf: noLimits, Prefix: openPrefix(1), PendingTick: true, Threads: [][]h.Step{{post}}})
 		if tier == "thorough" {
 			add("overflow-vs-patch-vs-expiry", &h.Scenario{Conf: gcConf(2), Prefix: openPrefix(2), Due: 67 * time.Minute, Threads: [][]h.Step{{post}, {patch("s2")}}})
 			add("two-overflows", &h.Scenario{Conf: gcConf(2), Prefix: openPrefix(2), Threads: [][]h.Step{{post}, {post}, {patch("s1")}}})
